@@ -42,6 +42,15 @@ impl Ctx {
 
     pub fn run(&self, worker: usize, program: &[u8], w: &World, plan: &Plan) -> RunResult {
         self.child_runs.fetch_add(1, Ordering::Relaxed);
+        // scripts that declare a need for more than the default 8 MiB of stack (deep
+        // recursion) run with an unlimited stack in every world, the reference world included
+        let big;
+        let w = if needs_big_stack(program) && w.stack != 3 {
+            big = World { stack: 3, ..w.clone() };
+            &big
+        } else {
+            w
+        };
         let mut r = exec::run(&self.cfg, worker, program, w, plan);
         if r.status == Status::Hang {
             // a hang is only believed when it repeats (machine load must not raise alarms)
@@ -75,6 +84,12 @@ impl Ctx {
         m.insert(key, r.clone());
         r
     }
+}
+
+pub const BIG_STACK_MARKER: &[u8] = b"# seedsim: needs-big-stack\n";
+
+pub fn needs_big_stack(program: &[u8]) -> bool {
+    program.starts_with(BIG_STACK_MARKER)
 }
 
 #[derive(Clone, Debug)]
